@@ -340,6 +340,12 @@ func feeConfigs() []feeCfg {
 		{"gov:large", coinP("stake", 987654321012)},
 		{"gov:zero-coin-other-denom-after-positive", coinP("uregen", 0)},
 		{"gov:20000000stake", coinP("stake", 20000000)},
+		// transitions between two positive fees that differ in one component only (or not at all)
+		{"gov:20000000uregen-same-amount-other-denom", coinP("uregen", 20000000)},
+		{"gov:5uregen-same-denom-other-amount", coinP("uregen", 5)},
+		{"gov:5uregen-again", coinP("uregen", 5)},
+		{"gov:5stake-same-amount-other-denom", coinP("stake", 5)},
+		{"gov:6stake-same-denom-other-amount", coinP("stake", 6)},
 	}
 }
 
